@@ -4,7 +4,7 @@ C17 — a failed or refused export leaves no trace.
 Cases = metainfo recipes of C07's generator (every failing class + valid ones) × a *world*:
 
   write(path)      what is at the path (absent | file, short or long | directory, empty or not | symlink to a
-                   file | symlink loop | dangling symlink | socket | symlink to /dev/full, /dev/null | running
+                   file | symlink loop | dangling symlink | socket | symlink to a private full / null device node | running
                    executable | name too long | missing parent | parent is a file) × who may do what (root, or an
                    unprivileged effective uid facing a read-only file / read-only directory / unsearchable
                    directory) × fault while writing (RLIMIT_FSIZE = k bytes: a real EFBIG after k bytes; injected:
@@ -43,7 +43,7 @@ RULE = ('metainfo recipes from the C07 generator (valid + 1..3 mutations; every 
         'device/busy executable/over-long name, unprivileged euid vs read-only file, read-only dir, unsearchable dir, '
         'RLIMIT_FSIZE after k bytes, injected open/write/close faults x overwrite x validate; streams: BytesIO, files '
         "opened r+b/w+b/wb/ab/a+b/rb (un)buffered, text streams, pipes, sink, wrapper failing at its k-th call or after "
-        'q bytes x prior content empty/short/long x position; exhaustive sweep of all worlds on 6 metainfos (thorough: 66) + random '
+        'q bytes x prior content empty/short/long x position; prior content also derived from the new content (equal, proper prefixes, new + suffix, one byte flipped, same length, previous export before an edit); exhaustive sweep of all worlds on 7 metainfos (thorough: 67) + one of ~10 KiB on the derived worlds + random '
         'worlds on every recipe; non-trivial = the export fails or the target/stream has prior content; '
         'distinct = distinct (recipe, world, flags)')
 
@@ -51,6 +51,69 @@ PRIORS = {'empty': b'', 'short': b'OLD12', 'old': b'OLD-CONTENT-0123456789',
           'long': bytes((i * 37 + 11) % 251 for i in range(2048))}
 OLD = PRIORS['old']
 NOBODY = 65534
+
+# prior content *derived from the new content* c (= what dump() returns for the case; if dump fails: what
+# dump(validate=False) returns; if that fails too: OLD).  In the model these are just other values of the node's /
+# stream's content; the generator has to produce them because an implementation may look at the old content.
+DERIVED = ('eq',                                                       # exactly the new content
+           'prefix:1', 'prefix:half', 'prefix:len-1',                  # proper initial segments (prefix:0 = 'empty')
+           'plus:1', 'plus:many', 'plus:self',                         # the new content followed by more
+           'flip:start', 'flip:mid', 'flip:end',                       # one byte differs
+           'samelen',                                                  # same length and first byte, the rest differs
+           'prev:comment', 'prev:name', 'prev:tracker')                # the previous export of the object, before an edit
+POSITIONS = ('0', '1', 'half', 'end-1', 'end', 'end+5')                # symbolic stream positions, relative to the prior
+
+
+def _prev_export(torf, md, what):
+    """dump of the same object before an edit: the case's metainfo is the *edited* one; undo an edit outside the
+    info dict (comment, tracker) or inside it (name)"""
+    t = c07.fresh(torf, md)
+    mi = t.metainfo
+    if what == 'comment':
+        if 'comment' in mi:
+            del mi['comment']
+        else:
+            mi['comment'] = 'previous comment'
+    elif what == 'tracker':
+        if 'announce' in mi:
+            mi['announce'] = 'http://old.tracker.example/announce'
+        else:
+            mi['announce'] = 'http://tracker.example/announce'
+    else:
+        mi['info']['name'] = 'previous name'
+    return t.dump(validate=False)
+
+
+def prior_bytes(name, base, torf=None, md=None):
+    """the bytes a prior-content name stands for; `base` = the new content (see DERIVED)"""
+    if name in PRIORS:
+        return PRIORS[name]
+    n = len(base)
+    kind, _, arg = name.partition(':')
+    if kind == 'eq':
+        return base
+    if kind == 'prefix':
+        return base[:{'1': 1, 'half': n // 2, 'len-1': max(n - 1, 0)}[arg]]
+    if kind == 'plus':
+        return base + {'1': b'\n', 'many': PRIORS['long'], 'self': base}[arg]
+    if kind == 'flip':
+        i = {'start': 0, 'mid': n // 2, 'end': n - 1}[arg]
+        return base[:i] + bytes([base[i] ^ 0x20]) + base[i + 1:] if n else b'x'
+    if kind == 'samelen':
+        return base[:1] + bytes((b + 1) % 256 for b in base[1:])
+    if kind == 'prev':
+        try:
+            return _prev_export(torf, md, arg)
+        except Exception:  # noqa  (metainfo too odd to edit)
+            return base[:n // 2] + b'previous' + base[n // 2:]
+    raise ValueError(name)
+
+
+def position(sym, prior):
+    if isinstance(sym, int):
+        return sym
+    n = len(prior)
+    return {'0': 0, '1': 1, 'half': n // 2, 'end-1': max(n - 1, 0), 'end': n, 'end+5': n + 5}[sym]
 
 # ---------------------------------------------------------------------------------------------------------
 # file worlds: name -> (what the model is told beyond what is observed).  `node` and `existsAns` are always
@@ -72,7 +135,6 @@ FILE_WORLDS = {
     'name-too-long':   (None,    True,  False, None),
     'socket':          (None,    True,  False, None),
     'busy-exe':        (None,    True,  False, None),
-    'devfull-link':    (None,    False, False, 0),
     'devnull-link':    (None,    False, False, None),
     'ro-file':         ('old',   True,  True,  None),     # file 0444 in a directory the euid may modify
     'ro-dir-file':     ('old',   True,  True,  None),     # file not writable, directory not writable
@@ -192,6 +254,43 @@ class _FaultyFile:
 
     def __getattr__(self, name):
         return getattr(self._f, name)
+
+
+_PROCESS0 = {}
+
+
+def _remember_process():
+    """what a worker's identity, limits and open() are before any case ran"""
+    import builtins
+    if not _PROCESS0:
+        _PROCESS0.update(uid=os.getuid(), gid=os.getgid(), fsize=resource.getrlimit(resource.RLIMIT_FSIZE),
+                         open=builtins.open)
+
+
+def _restore_process():
+    """whatever a case (or an exception inside it) left behind: effective ids, RLIMIT_FSIZE, builtins.open"""
+    import builtins
+    if not _PROCESS0:
+        return
+    if os.geteuid() != _PROCESS0['uid']:
+        os.seteuid(_PROCESS0['uid'])
+    if os.getegid() != _PROCESS0['gid']:
+        os.setegid(_PROCESS0['gid'])
+    if resource.getrlimit(resource.RLIMIT_FSIZE) != _PROCESS0['fsize']:
+        resource.setrlimit(resource.RLIMIT_FSIZE, _PROCESS0['fsize'])
+    if builtins.open is not _PROCESS0['open']:
+        builtins.open = _PROCESS0['open']
+
+
+class _CaseTimeout(BaseException):
+    """not an Exception: the code under test must not be able to swallow it"""
+
+
+def _on_alarm(signum, frame):
+    raise _CaseTimeout()
+
+
+CASE_TIMEOUT = 60     # seconds; an export of a few hundred bytes that has not returned by then never will
 
 
 class _Identity:
@@ -318,9 +417,9 @@ def _node(path):
     return {'k': 'other'}
 
 
-def _build_world(base, world):
-    """create the world below `base`; returns (path, cleanup callables)"""
-    prior, _, _, _ = FILE_WORLDS[world]
+def _build_world(base, world, prior, cleanup):
+    """create the world below `base` (`prior`: bytes of the file at the target, if the world has one); appends what
+    has to be undone to `cleanup`; returns (path, cleanup)"""
     os.makedirs(base)
     os.chmod(base, 0o777)
     d = os.path.join(base, 'd')
@@ -329,14 +428,13 @@ def _build_world(base, world):
     path = os.path.join(d, 'out.torrent')
     with open(os.path.join(d, 'sibling'), 'wb') as f:
         f.write(b'sibling')
-    cleanup = []
     if world in ('file', 'file-long', 'file-empty', 'ro-file', 'ro-dir-file', 'hidden-file'):
         with open(path, 'wb') as f:
-            f.write(PRIORS[prior])
+            f.write(prior)
         os.chmod(path, 0o444 if world == 'ro-file' else 0o644)
     elif world == 'symlink-file':
         with open(os.path.join(d, 'real.bin'), 'wb') as f:
-            f.write(PRIORS[prior])
+            f.write(prior)
         os.symlink('real.bin', path)
     elif world == 'dir':
         os.makedirs(path)
@@ -366,17 +464,36 @@ def _build_world(base, world):
         os.chmod(path, 0o755)
         pr = subprocess.Popen([path, '30'], stdin=subprocess.DEVNULL, stdout=subprocess.DEVNULL, stderr=subprocess.DEVNULL)
         cleanup.append(lambda: (pr.kill(), pr.wait()))
-    elif world == 'devfull-link':
-        if not os.path.exists('/dev/full'):
-            return None, cleanup
-        os.symlink('/dev/full', path)
     elif world == 'devnull-link':
-        os.symlink('/dev/null', path)
+        # a *private* character device node (1:3 = null) in the scratch directory, never the system's /dev/null:
+        # a change under test that resolves the link and removes or replaces its target must not be able to damage
+        # the machine (and on a machine whose /dev/null has been replaced by a regular file the world would be a
+        # file every process writes to).  No "full" device (1:7): reading it never ends.
+        try:
+            os.mknod(os.path.join(d, 'chardev'), 0o666 | stat.S_IFCHR, os.makedev(1, 3))
+        except OSError:
+            return None, cleanup
+        os.symlink('chardev', path)
     if world in ('ro-dir-file', 'ro-dir-absent'):
         os.chmod(d, 0o555)
     elif world == 'hidden-file':
         os.chmod(d, 0o600)
     return path, cleanup
+
+
+def _world_ok(world, prior, node, snap):
+    """read-back of the prepared world: is at the path what the world says, and is the directory as built?"""
+    if snap.get(os.path.join('d', 'sibling'), [None, None, None])[2:] != [b'sibling'.hex()]:
+        return False
+    if world in ('file', 'file-long', 'file-empty', 'symlink-file', 'ro-file', 'ro-dir-file', 'hidden-file'):
+        return node == {'k': 'file', 'content': prior.hex()}
+    if world in ('absent', 'noparent', 'parentfile', 'name-too-long', 'ro-dir-absent'):
+        return node == {'k': 'absent'}
+    if world in ('dir', 'emptydir'):
+        return node == {'k': 'dir'}
+    if world == 'busy-exe':
+        return node['k'] == 'file'
+    return node == {'k': 'other'}
 
 
 def _probe_open_fails(path):
@@ -399,13 +516,15 @@ def _result(torf, fn):
         return ['err', c07.err_kind(torf, e)]
 
 
-def _run_file(torf, wd, c, t, obs):
+def _run_file(torf, cd, c, t, obs):
     world, fault = c['world'], c.get('fault')
     _, open_err, nobody, quota = FILE_WORLDS[world]
-    base = os.path.join(wd, 'tgt')
-    _rmtree(base)
-    path, cleanup = _build_world(base, world)
+    base = os.path.join(cd, 'tgt')                      # `cd`: a fresh directory for this case only
+    pname = c.get('prior') or FILE_WORLDS[world][0]
+    prior = prior_bytes(pname, obs['base'], torf, c['md']) if pname else b''
+    cleanup = []
     try:
+        path, _ = _build_world(base, world, prior, cleanup)
         if path is None:
             obs['unavailable'] = 'world cannot be built here'
             return
@@ -413,11 +532,15 @@ def _run_file(torf, wd, c, t, obs):
             obs['unavailable'] = 'an unprivileged harness cannot look into the unsearchable directory itself'
             return
         before_node, before = _node(path), _snapshot(base)
+        if not _world_ok(world, prior, before_node, before):
+            # never judge a world that is not what it was meant to be (disk full, limits, foreign clean-up, …)
+            obs['unavailable'] = 'the prepared world did not read back as built'
+            return
         ident = _Identity(nobody)
         with ident:
             exists_ans = os.path.exists(path)
             probe = _probe_open_fails(path) if before_node['k'] != 'absent' and world != 'hidden-file' else None
-        if probe is not None and probe != open_err and world not in ('devfull-link', 'devnull-link'):
+        if probe is not None and probe != open_err:
             obs['unavailable'] = f'platform does not behave as the world expects (open fails: {probe})'
             return
         if fault is not None and fault['kind'] == 'open':
@@ -427,13 +550,12 @@ def _run_file(torf, wd, c, t, obs):
         obs['env'] = {'existsAns': exists_ans, 'openErr': open_err, 'closeErr': bool(fault and fault['kind'] == 'close')}
         if quota is not None:
             obs['env']['quota'] = quota
-        with _PatchedOpen(path, fault):
-            try:
+        try:
+            with _PatchedOpen(path, fault):
                 with ident, _FsizeLimit(fault['k'] if fault and fault['kind'] == 'fsize' else None):
                     obs['result'] = _result(torf, lambda: t.write(path, validate=c['validate'], overwrite=c['overwrite']))
-            finally:
-                if os.geteuid() != os.getuid():
-                    os.seteuid(os.getuid())
+        finally:
+            _restore_process()
         after = _snapshot(base)
         obs['before'], obs['after'] = before_node, _node(path)
         tname = os.path.relpath(path, base)
@@ -442,15 +564,15 @@ def _run_file(torf, wd, c, t, obs):
                                        if k not in mine and before.get(k) != after.get(k))[:5]
         obs['entry'] = [{k: before.get(k) for k in sorted(mine)}, {k: after.get(k) for k in sorted(mine)}]
     finally:
+        _restore_process()
         for fn in cleanup:
             try:
                 fn()
             except Exception:  # noqa
                 pass
-        _rmtree(base)
 
 
-def _open_stream(wd, kind, prior, pos):
+def _open_stream(cd, kind, prior, pos):
     """returns (stream, finish) where finish() -> (content bytes | None, pos | None) and releases everything"""
     parts = kind.split(':')
     if parts[0] == 'bytesio':
@@ -466,7 +588,7 @@ def _open_stream(wd, kind, prior, pos):
         return s, lambda: (bytes(s.buf), None)
     if parts[0] in ('file', 'text'):
         mode = parts[1]
-        p = os.path.join(wd, 'stream.bin')
+        p = os.path.join(cd, 'stream.bin')
         with open(p, 'wb') as f:
             f.write(prior if mode[0] != 'w' else b'')
         kw = {'buffering': 0} if parts[-1] == '0' else {}
@@ -524,18 +646,31 @@ def _open_stream(wd, kind, prior, pos):
     raise ValueError(kind)
 
 
-def _run_stream(torf, wd, c, t, obs):
-    kind, prior, pos, fault = c['stream'], PRIORS[c['prior']], c['pos'], c.get('fault')
-    inner, finish = _open_stream(wd, kind, prior, pos)
+def _run_stream(torf, cd, c, t, obs):
+    kind, fault = c['stream'], c.get('fault')
+    prior = prior_bytes(c['prior'], obs['base'], torf, c['md']) if not kind.startswith('brokenpipe') else b''
+    pos = position(c['pos'], prior)
+    obs['prior'], obs['pos0'] = prior.hex(), pos
+    inner, finish = _open_stream(cd, kind, prior, pos)
     s = inner
     wrapped = fault is not None and 'fsize' not in fault
     if wrapped:
         s = Faulty(inner, at=fault.get('at'), quota=fault.get('quota'), short=fault.get('short', False))
+    ok = True
+    if kind.startswith(('file', 'text')):
+        inner.flush()
+        with open(os.path.join(cd, 'stream.bin'), 'rb') as f:       # read-back of the prepared stream
+            ok = f.read() == prior
     try:
-        with _FsizeLimit(fault['fsize'] if fault and 'fsize' in fault else None):
-            obs['result'] = _result(torf, lambda: t.write_stream(s, validate=c['validate']))
+        if ok:
+            with _FsizeLimit(fault['fsize'] if fault and 'fsize' in fault else None):
+                obs['result'] = _result(torf, lambda: t.write_stream(s, validate=c['validate']))
     finally:
+        _restore_process()
         content, tell = finish()
+    if not ok:
+        obs['unavailable'] = 'the prepared stream did not read back as built'
+        return
     obs['content'] = None if content is None else content.hex()
     obs['pos'] = tell
     obs['calls'] = s.calls if wrapped else None
@@ -544,10 +679,17 @@ def _run_stream(torf, wd, c, t, obs):
 def _run_chunk(cases):
     torf = common.import_torf()
     wd = common.worker_dir()
+    _remember_process()
+    signal.signal(signal.SIGALRM, _on_alarm)
     out = []
-    for c in cases:
+    for n, c in enumerate(cases):
         obs = {}
+        cd = os.path.join(wd, f'case-{os.getpid()}-{n}')          # nothing is shared between two cases
         try:
+            _rmtree(cd)
+            os.makedirs(cd)
+            os.chmod(cd, 0o755)
+            signal.alarm(CASE_TIMEOUT)
             t = c07.fresh(torf, c['md'])
             try:
                 obs['dump'] = ['ok', c07.fresh(torf, c['md']).dump(validate=c['validate']).hex()]
@@ -555,24 +697,38 @@ def _run_chunk(cases):
                 obs['dump'] = ['err', 'internal:RecursionError']
             except Exception as e:  # noqa
                 obs['dump'] = ['err', c07.err_kind(torf, e)]
+            base = bytes.fromhex(obs['dump'][1]) if obs['dump'][0] == 'ok' else None
+            if base is None:
+                try:
+                    base = c07.fresh(torf, c['md']).dump(validate=False)
+                except Exception:  # noqa
+                    base = OLD
+            obs['base'] = base
             if c['target'] == 'file':
-                _run_file(torf, wd, c, t, obs)
+                _run_file(torf, cd, c, t, obs)
             else:
-                _run_stream(torf, wd, c, t, obs)
+                _run_stream(torf, cd, c, t, obs)
+            del obs['base']
+        except _CaseTimeout:
+            obs = {'timeout': CASE_TIMEOUT, 'dump': obs.get('dump')}
         except Exception as e:  # noqa
             obs = {'harness-error': f'{type(e).__name__}: {e}'}
+        finally:
+            signal.alarm(0)
+            _restore_process()
+            _rmtree(cd)
         out.append((c, obs))
     return out
 
 
 # ---------------------------------------------------------------------------------------------------------
 # generator
-def _stream_model(c):
-    """the model's stream object for a case"""
+def _stream_model(c, obs):
+    """the model's stream object for a case (prior content and position as the worker resolved them)"""
     flags = dict(STREAM_KINDS[c['stream']])
-    prior = PRIORS[c['prior']] if not c['stream'].startswith('brokenpipe') else b''
+    prior = bytes.fromhex(obs['prior'])
     seekable = flags.get('seekable', True)
-    pos = c['pos'] if seekable else 0
+    pos = obs['pos0'] if seekable else 0
     if c['stream'].startswith('text'):
         pos = min(pos, len(prior))
     s = {'content': prior.hex(), 'pos': pos, **flags}
@@ -590,21 +746,32 @@ def _stream_model(c):
 
 
 def file_worlds():
-    """every (world, fault) the sweep plays"""
-    out = [(w, None) for w in FILE_WORLDS]
+    """every (world, prior, fault) the sweep plays; prior None = the world's own fixed prior content"""
+    out = [(w, None, None) for w in FILE_WORLDS]
     for w in FAULTABLE:
-        out += [(w, {'kind': 'open', 'errno': e}) for e in OPEN_ERRNOS]
-        out += [(w, {'kind': 'write', 'k': k}) for k in QUOTAS]
-        out += [(w, {'kind': 'fsize', 'k': k}) for k in QUOTAS]
-        out += [(w, {'kind': 'close'})]
-    out += [('devfull-link', {'kind': 'close'}), ('dir', {'kind': 'open', 'errno': 'EACCES'}),
-            ('emptydir', {'kind': 'open', 'errno': 'EACCES'}), ('symlink-loop', {'kind': 'open', 'errno': 'EACCES'}),
-            ('ro-file', {'kind': 'write', 'k': 1})]
+        out += [(w, None, {'kind': 'open', 'errno': e}) for e in OPEN_ERRNOS]
+        out += [(w, None, {'kind': 'write', 'k': k}) for k in QUOTAS]
+        out += [(w, None, {'kind': 'fsize', 'k': k}) for k in QUOTAS]
+        out += [(w, None, {'kind': 'close'})]
+    out += [('devnull-link', None, {'kind': 'close'}), ('devnull-link', None, {'kind': 'write', 'k': 0}),
+            ('devnull-link', None, {'kind': 'write', 'k': 17}), ('dir', None, {'kind': 'open', 'errno': 'EACCES'}),
+            ('emptydir', None, {'kind': 'open', 'errno': 'EACCES'}),
+            ('symlink-loop', None, {'kind': 'open', 'errno': 'EACCES'}), ('ro-file', None, {'kind': 'write', 'k': 1})]
+    # prior content derived from the new content
+    for w in ('file', 'symlink-file'):
+        out += [(w, p, None) for p in DERIVED]
+    for p in ('eq', 'plus:1', 'prefix:half', 'samelen', 'prev:comment'):
+        out += [('file', p, {'kind': 'open', 'errno': 'EACCES'}), ('file', p, {'kind': 'write', 'k': 1}),
+                ('file', p, {'kind': 'fsize', 'k': 17}), ('file', p, {'kind': 'close'}), ('ro-file', p, None),
+                ('hidden-file', p, None)]
     return out
 
 
+MAIN_SEEKABLE = ('bytesio', 'file:r+b', 'file:ab', 'file:a+b', 'file:w+b')
+
+
 def stream_worlds():
-    """every (kind, prior, pos, fault) the sweep plays"""
+    """every (kind, prior, pos, fault) the sweep plays; pos is a number or one of POSITIONS"""
     out = []
     for kind, flags in STREAM_KINDS.items():
         seekable = flags.get('seekable', True)
@@ -615,6 +782,11 @@ def stream_worlds():
                 continue
             for pos in poss:
                 out.append((kind, prior, pos, None))
+        # prior content derived from the new content, at every position
+        if kind.startswith('brokenpipe'):
+            continue
+        poss = POSITIONS if kind in MAIN_SEEKABLE else ('0', 'end') if seekable else ('0',)
+        out += [(kind, prior, pos, None) for prior in DERIVED for pos in poss]
     for kind in FAULTY_INNER:
         seekable = STREAM_KINDS[kind].get('seekable', True)
         for prior in ('short', 'long'):
@@ -622,8 +794,12 @@ def stream_worlds():
             for pos in ([0, 3, n] if seekable else [0]):
                 for f in STREAM_FAULTS:
                     out.append((kind, prior, pos, f))
+        for prior in ('eq', 'plus:1'):
+            for pos in (('0', 'end') if seekable else ('0',)):
+                for f in STREAM_FAULTS:
+                    out.append((kind, prior, pos, f))
     for kind in RAW_FILE_KINDS:
-        for prior in ('short', 'long'):
+        for prior in ('short', 'long', 'plus:many'):
             for k in RAW_FSIZE:
                 out.append((kind, prior, 3, {'fsize': k}))
     return out
@@ -635,12 +811,24 @@ def _mk(m, rng, **kw):
     return c
 
 
+def typical_md(npieces):
+    """what a torrent made by a client looks like (all the optional top-level keys)"""
+    K = c07.K
+    info = [('name', R.S('payload.bin')), ('piece length', R.I(K)), ('length', R.I(npieces * K - 7)),
+            ('pieces', R.Y(c07.pieces_for(npieces * K - 7, K)))]
+    return R.D([('announce', R.S('http://tracker.example.org:8080/announce')), ('comment', R.S('a comment')),
+                ('created by', R.S('torf')), ('creation date', R.I(1600000000)), ('info', R.D(info))])
+
+
 def sweep_mds(rng, extra=0):
     """a handful of metainfos for the exhaustive world sweep: valid ones of different size, an invalid one, an
     unconvertible one (passes validate()), one outside PyVal (+ `extra` more: valid and mutated alternately)"""
     fixed = {m['labels'][0]: m for m in c07.fixed_cases()}
     mds = [{'md': c07.base_metainfo(rng, multi=False), 'labels': ['base-single']},
            {'md': c07.base_metainfo(rng, multi=True), 'labels': ['base-multi']},
+           {'md': typical_md(1), 'labels': ['typical']},            # announce, comment, creation date, created by
+           {'md': typical_md(500), 'labels': ['typical-big'],       # dump() of about 10 KiB: worlds whose prior content
+            'derived_only': True},                                  # is derived from it only
            dict(fixed['pieces-39-bytes'], validate=False)]          # dump(validate=False) succeeds
     mds += [fixed['pieces-39-bytes'], fixed['inf-value'], fixed['cyclic-list']]
     for i in range(extra):
@@ -653,8 +841,10 @@ def sweep_mds(rng, extra=0):
 
 def random_world(rng, c):
     if rng.random() < 0.5:
-        w, f = rng.choice(FILE_WORLD_LIST)
+        w, p, f = rng.choice(FILE_WORLD_LIST)
         c.update(target='file', world=w, overwrite=rng.random() < 0.6)
+        if p is not None:
+            c['prior'] = p
         if f is not None:
             c['fault'] = f
     else:
@@ -672,17 +862,25 @@ SLOW_WORLDS = ('busy-exe',)
 def sweep_cases(rng, mds, thin=1.0):
     cases = []
     for m in mds:
-        for w, f in FILE_WORLD_LIST:
+        few = m.get('derived_only', False)
+        for w, p, f in FILE_WORLD_LIST:
+            if few and (p not in DERIVED or w != 'file'):
+                continue
             for ov in (False, True):
                 if w in SLOW_WORLDS and rng.random() > 0.35 * thin:
                     continue
                 if thin < 1.0 and rng.random() > thin:
                     continue
                 c = _mk(m, rng, target='file', world=w, overwrite=ov)
+                if p is not None:
+                    c['prior'] = p
                 if f is not None:
                     c['fault'] = f
                 cases.append(c)
         for k, p, pos, f in STREAM_WORLD_LIST:
+            if few and (p not in DERIVED or k not in ('bytesio', 'file:r+b', 'file:ab') or pos not in ('0', 'end')
+                        or f is not None):
+                continue
             if thin < 1.0 and rng.random() > thin:
                 continue
             c = _mk(m, rng, target='stream', stream=k, prior=p, pos=pos)
@@ -790,12 +988,83 @@ MATCHERS = {
 }
 
 
-def evaluate(ctx, drv, cases):
+class _Rec:
+    """what evaluating a batch wants to report; handed to ctx only after the suspects were confirmed"""
+    def __init__(self):
+        self.viol, self.breaks = [], []
+
+    def violation(self, what, case, expected=None, observed=None, finding_matchers=None):
+        self.viol.append((what, case, expected, observed, finding_matchers))
+
+    def corr_break(self, op, case, model, impl):
+        self.breaks.append((op, case, model, impl))
+
+
+CONFIRM = 12
+
+
+def evaluate(ctx, drv, cases, quiet=False):
+    """run the cases, judge them; with quiet=True nothing is counted or reported, the findings are returned.
+    Every suspect (violation or disagreement with the model) is run a second time, alone, in a fresh directory and
+    a fresh worker, before it is reported: the export code is sequential and deterministic, so an outcome that does
+    not repeat is noise from the machine (foreign clean-up of /dev/shm, a full disk, …) and is counted, not alarmed."""
+    rec = _Rec()
+    _evaluate(ctx, drv, cases, rec, quiet)
+    if quiet:
+        return rec
+    keyof = lambda case: json.dumps(case, sort_keys=True)   # noqa
+    suspects, seen = [], set()
+    for item in rec.viol + rec.breaks:
+        k = keyof(item[1])
+        if k not in seen:
+            seen.add(k)
+            suspects.append(item[1])
+    confirmed = set()
+    if suspects:
+        again = [dict(c, labels=c.get('labels', ['rerun'])) for c in suspects[:CONFIRM]]
+        rec2 = evaluate(ctx, drv, again + again[:1], quiet=True)       # two chunks at least: forces worker processes
+        confirmed = {keyof(item[1]) for item in rec2.viol + rec2.breaks}
+        unverified = {keyof(c) for c in suspects[CONFIRM:]} if confirmed else set()
+        for c in suspects[:CONFIRM]:
+            if keyof(c) not in confirmed:
+                ctx.dist['suspect-not-reproduced-on-rerun'] += 1
+                ctx.notes.setdefault('not_reproduced', [])
+                if len(ctx.notes['not_reproduced']) < 5:
+                    ctx.notes['not_reproduced'].append({k: v for k, v in c.items() if k != 'md'})
+        confirmed |= unverified
+    for what, case, expected, observed, fm in rec.viol:
+        if keyof(case) in confirmed:
+            ctx.violation(what, case, expected, observed, finding_matchers=fm)
+    for op, case, model, impl in rec.breaks:
+        if keyof(case) in confirmed:
+            ctx.corr_break(op, case, model, impl)
+    return rec
+
+
+class _Quiet:
+    """stands in for ctx during a confirmation re-run"""
+    def __init__(self, ctx):
+        self.rng, self.evaluations, self.samples = ctx.rng, 10 ** 9, [None] * 99
+        self.dist = __import__('collections').Counter()
+
+    def case(self, **kw):
+        pass
+
+    def sample(self, *a, **kw):
+        pass
+
+    def machinery_error(self, *a, **kw):
+        pass
+
+
+def _evaluate(ctx, drv, cases, rec, quiet):
     results = common.pmap(_run_chunk, common.split(cases, common.NPROC * 4))
     flat = [x for chunk in results for x in chunk]
+    if quiet:
+        ctx = _Quiet(ctx)
     reqs = []
     for c, obs in flat:
-        if 'harness-error' in obs or 'unavailable' in obs:
+        if 'harness-error' in obs or 'unavailable' in obs or 'timeout' in obs:
             reqs += [{'op': 'ping'}, {'op': 'ping'}]
             continue
         if c['target'] == 'file':
@@ -804,7 +1073,7 @@ def evaluate(ctx, drv, cases):
                      'nodeAfter': obs['after']}
             model = {'op': 'c17.write', 'overwrite': c['overwrite'], 'node': obs['before'], 'env': obs['env']}
         else:
-            sm = _stream_model(c)
+            sm = _stream_model(c, obs)
             judge = {'op': 'c17.judge.stream', 'dump': _dump_json(obs['dump']), 'stream': sm,
                      'result': _res_json(obs['result']),
                      'contentAfter': obs['content'] if obs['content'] is not None else sm['content']}
@@ -827,7 +1096,12 @@ def evaluate(ctx, drv, cases):
             ctx.machinery_error('harness could not run the case: ' + obs['harness-error'], case)
             continue
         if 'unavailable' in obs:
-            ctx.dist['unavailable:' + c.get('world', '?')] += 1
+            ctx.dist['unavailable:' + (c.get('world') or c.get('stream') or '?')] += 1
+            continue
+        if 'timeout' in obs:
+            ctx.case(kind='timeout')
+            rec.violation(f"the export did not return within {obs['timeout']} s", case, 'write()/write_stream() returns or raises',
+                          {'timeout': obs['timeout'], 'dump': _short(obs.get('dump'))})
             continue
         res, d = obs['result'], obs['dump']
         failing = res[0] == 'err'
@@ -846,22 +1120,22 @@ def evaluate(ctx, drv, cases):
             before, after = obs['before'], obs['after']
             observed = {'result': res, 'after': _short(after), 'env': obs['env']}
             if not jrep['accepted']:
-                ctx.violation(_why_file(c, obs), case, {'before': _short(before), 'dump': _short(d), 'spec': 'fileSpec'},
+                rec.violation(_why_file(c, obs), case, {'before': _short(before), 'dump': _short(d), 'spec': 'fileSpec'},
                               observed)
             if obs['others_changed'] and failing:
-                ctx.violation(f'write() failed ({res[1]}) but left a trace next to the target', case,
+                rec.violation(f'write() failed ({res[1]}) but left a trace next to the target', case,
                               'nothing else in the directory changes', {**observed, 'changed': obs['others_changed']})
             if failing and after == before and obs['entry'][0] != obs['entry'][1]:
-                ctx.violation(f'write() failed ({res[1]}) but the type/mode of the target changed', case,
+                rec.violation(f'write() failed ({res[1]}) but the type/mode of the target changed', case,
                               _short(obs['entry'][0]), {**observed, 'entry': _short(obs['entry'][1])})
         else:
-            sm = _stream_model(c)
+            sm = _stream_model(c, obs)
             if not jrep['accepted']:
                 part = None
                 if d[0] == 'ok' and sm.get('short') and obs['content'] is not None:
                     part = (('' if sm.get('seekable', True) else sm['content']) + d[1][:2 * sm['quota']]) == obs['content'] \
                         and 2 * sm['quota'] < len(d[1])
-                ctx.violation(_why_stream(c, obs, sm), case,
+                rec.violation(_why_stream(c, obs, sm), case,
                               {'stream': _short(sm), 'dump': _short(d), 'spec': 'streamSpec'},
                               {'result': res, 'content': _short(obs['content'] or ''), 'pos': obs['pos'],
                                'calls': obs['calls'], 'raw_short_write': part}, finding_matchers=MATCHERS)
@@ -887,7 +1161,7 @@ def evaluate(ctx, drv, cases):
             if same and obs['pos'] is not None:
                 same = rep['pos'] == obs['pos']
         if not same:
-            ctx.corr_break('c17.' + c['target'], case,
+            rec.corr_break('c17.' + c['target'], case,
                            {'result': mres, 'node': _short(rep.get('node')), 'content': _short(rep.get('content')),
                             'pos': rep.get('pos')},
                            {'result': res, 'after': _short(obs.get('after')), 'content': _short(obs.get('content')),
@@ -908,7 +1182,7 @@ def run(ctx, drv):
         'node and exists() are observed, "open fails" is what the world is built to provoke (cross-checked with a '
         'side-effect-free O_WRONLY probe where the path exists); worlds the platform cannot provide are skipped and counted',
         'permission denials are real (effective uid 65534 while the export runs) if the harness is root or the files are its own; '
-        'write-time faults are real (RLIMIT_FSIZE -> EFBIG after k bytes, /dev/full -> ENOSPC) and injected '
+        'write-time faults are real (RLIMIT_FSIZE -> EFBIG after k bytes, a private 1:7 "full" device node -> ENOSPC) and injected '
         '(builtins.open patched for the target path only: errno at open, OSError after k bytes, OSError at close)',
         'a fault during the final write (after open() succeeded) may leave an initial segment of the new content: '
         'demanded is only that nothing is removed and nothing else appears (see notes/C17.md)',
